@@ -304,6 +304,8 @@ pub struct Report {
     start: Instant,
     known: Vec<Known>,
     pub extra: Map<String, Value>,
+    /// wall time of merged parts
+    pub wall_extra: f64,
 }
 
 impl Report {
@@ -320,6 +322,7 @@ impl Report {
             start: ctx.start,
             known: load_known(&ctx.root),
             extra: Map::new(),
+            wall_extra: 0.0,
         }
     }
 
@@ -331,9 +334,68 @@ impl Report {
         self.assumptions.push(s.to_string());
     }
 
+    /// Serialise this (partial) report so that several check binaries can
+    /// contribute to one property's evidence (see the `vmerge` tool).
+    pub fn dump_part(&self, path: &std::path::Path) {
+        let j = json!({
+            "property": self.property,
+            "level": self.level,
+            "rule": self.rule,
+            "assumptions": self.assumptions,
+            "exhaustive": self.exhaustive,
+            "floors": self.floors.iter().map(|(c, m)| json!([c, m])).collect::<Vec<_>>(),
+            "frag": self.frag.to_json(),
+            "extra": self.extra,
+            "wall_s": self.start.elapsed().as_secs_f64(),
+        });
+        if let Some(d) = path.parent() {
+            let _ = std::fs::create_dir_all(d);
+        }
+        let _ = std::fs::write(path, serde_json::to_string(&j).unwrap());
+    }
+
+    pub fn merge_part(&mut self, j: &Value) {
+        if let Some(r) = j["rule"].as_str() {
+            if self.rule.is_empty() {
+                self.rule = r.to_string();
+            } else if !self.rule.contains(r) {
+                self.rule.push_str(" || ");
+                self.rule.push_str(r);
+            }
+        }
+        if let Some(a) = j["assumptions"].as_array() {
+            for x in a {
+                if let Some(s) = x.as_str() {
+                    if !self.assumptions.iter().any(|y| y == s) {
+                        self.assumptions.push(s.to_string());
+                    }
+                }
+            }
+        }
+        if let Some(e) = j["exhaustive"].as_bool() {
+            self.exhaustive = Some(self.exhaustive.unwrap_or(true) && e);
+        }
+        if let Some(a) = j["floors"].as_array() {
+            for x in a {
+                if let (Some(c), Some(m)) = (x[0].as_str(), x[1].as_u64()) {
+                    if !self.floors.iter().any(|(c2, _)| c2 == c) {
+                        self.floors.push((c.to_string(), m));
+                    }
+                }
+            }
+        }
+        self.frag.merge(Frag::from_json(&j["frag"]));
+        self.wall_extra += j["wall_s"].as_f64().unwrap_or(0.0);
+        if let Some(m) = j["extra"].as_object() {
+            for (k, v) in m {
+                self.extra.entry(k.clone()).or_insert(v.clone());
+            }
+        }
+    }
+
     /// Write evidence, print verdict lines, return the process exit code.
     pub fn finish(mut self) -> i32 {
-        let wall = self.start.elapsed().as_secs_f64();
+        let wall = self.start.elapsed().as_secs_f64() + self.wall_extra;
         let mut new_violations: Vec<Violation> = vec![];
         let mut known_hits: Vec<(Known, u64)> = vec![];
         for v in self.frag.violations.values() {
